@@ -10,12 +10,12 @@
      translate / translate_code   translate_staging.rs, with the desugar counter k threaded
      ev n r e                     the stage-0 machine (fuel n bounds nested closure calls only); on `EBracket q` it is
                                   the reference reading `rebuild n r q`: q itself with every escape replaced by the
-                                  code its stage-0 expression evaluates to (and float literals as the VM loads them)
+                                  code its stage-0 expression evaluates to
      norm0 / norm1                the normal form the encoding imposes on quoted code: parentheses dropped; missing
                                   else / let body / then filled with unit; let annotations dropped; `_`, record and
                                   nested tuple let-patterns flattened (fresh __dtN temporaries); qualified names
                                   mangled; nested quote -> block; lambda return type filled with `unknown`
-     nf0 / nf1, tr0 / tr1         "is in that normal form" / "contains only translatable nodes" (no match: F18)
+     nf0 / nf1, tr0 / tr1         "is in that normal form" / "contains only translatable nodes" (no match: F27)
      tr_val / tr_env              values with closure bodies translated; the identity on code values and numbers
    All theorems quantify over ALL expressions, nestings, environments, counters and fuel. *)
 From Coq Require Import List String ZArith Bool.
@@ -27,7 +27,7 @@ Local Open Scope string_scope.
 
 (* T: every combinator call translate_staging.rs emits (make_apply* call sites, extracted from the source) names a
    combinator that codegen_combinators.rs registers with exactly that number of arguments -- except `code_match`
-   as long as it is not registered at all (finding F18) *)
+   as long as it is not registered at all (finding F27) *)
 Theorem C09_arity_agree : forallb site_agrees emitted = true.
 Proof. exact arity_agree. Qed.
 
@@ -53,12 +53,17 @@ Theorem C09_quote_splice_id_nf : forall (n k : nat) (e : expr) (r : env) (c : ex
   ev n (tr_env r) (fst (translate_code e k)) = Ok (VCode c).
 Proof. exact quote_splice_nf. Qed.
 
-(* ... and when e has no escapes and only float literals the stage-0 VM loads exactly (`stable`), the generated
-   code is e itself: quote-then-splice is the identity *)
+(* ... and when e has no escapes the generated code is e itself: quote-then-splice is the identity *)
 Theorem C09_quote_identity : forall (n k : nat) (e : expr) (r : env),
-  nf1 e -> stable e -> good_env r ->
+  nf1 e -> escape_free e -> good_env r ->
   ev n (tr_env r) (fst (translate_code e k)) = Ok (VCode e).
 Proof. exact quote_identity. Qed.
+
+(* in particular every float literal of quoted code arrives in the generated code with exactly its value *)
+Theorem C09_literal_exact : forall (n k : nat) (q : num) (r : env),
+  good_env r ->
+  ev n (tr_env r) (fst (translate_code (ELit (LFloat q)) k)) = Ok (VCode (ELit (LFloat q))).
+Proof. exact (fun n k q r G => quote_identity n k (ELit (LFloat q)) r I I G). Qed.
 
 (* whole staged programs (let-bound code, functions returning code, recursion building code ...): whenever the
    reference semantics of the normalised program yields v, the translated program yields v on the stage-0 machine
@@ -90,14 +95,7 @@ Theorem C09_lift_exact : forall (n : nat) (r : env) (s : expr) (q : num) (name :
   ev n r (EApply (EVar name) [s]) = Ok (VCode (ELit (LFloat q))).
 Proof. exact lift_exact. Qed.
 
-(* REFUTED part (finding F19): a float LITERAL is not preserved -- the stage-0 VM loads 0.001 as the half-precision
-   immediate 0.0010004043579101562, which is what the generated code then contains *)
-Theorem C09_literal_exact_refuted :
-  exists q q' : num, imm_round q = q' /\ q' <> q /\
-    expand 1 0 (EBracket (ELit (LFloat q))) = Ok (ELit (LFloat q')).
-Proof. exact (ex_intro _ q_milli (ex_intro _ q_milli_half literal_not_exact)). Qed.
-
-(* REFUTED part (finding F18): while `code_match` is not registered, no quoted `match` can be expanded *)
+(* REFUTED part (finding F27): while `code_match` is not registered, no quoted `match` can be expanded *)
 Theorem C09_match_unexpandable :
   registered_fn registered "code_match" = None ->
   forall (n : nat) (r : env) (s : expr) (arms : list (mpat * expr)) (k : nat),
@@ -106,7 +104,7 @@ Theorem C09_match_unexpandable :
     scope0 [] (fst (translate_code (EMatch s arms) k)) = Some (Unbound "code_match").
 Proof. exact match_unexpandable. Qed.
 
-(* REFUTED part (finding F20): the record pattern of a quoted `let {a = x, b = y} = r` is replaced by its first field
+(* REFUTED part (finding F28): the record pattern of a quoted `let {a = x, b = y} = r` is replaced by its first field
    name: the generated code is `let a = r` and x, y are no longer bound *)
 Theorem C09_record_pattern_refuted :
   let p := PRecord [("a", PSingle "x"); ("b", PSingle "y")] in
@@ -115,12 +113,12 @@ Theorem C09_record_pattern_refuted :
   expand 1 0 (EBracket e) = Ok (ELet (PSingle "a") ty_unknown (EVar "r") (Some (EVar "x"))).
 Proof. exact record_pattern_lost. Qed.
 
-(* the hypotheses are satisfiable: a quotation in normal form with stable literals, and one with an escape *)
+(* the hypotheses are satisfiable: a quotation in normal form without escapes, and one with an escape *)
 Example C09_example_identity :
   let e := ELet (PSingle "t") ty_unknown (EApply (EVar "add") [EVar "x"; ELit (LFloat float_one)])
              (Some (EIf (EVar "t") (ELambda [("p", ty_numeric, None)] (Some ty_unknown) (EVar "p")) (Some (ETuple [])))) in
-  nf1 e /\ stable e /\ expand 1 0 (EBracket e) = Ok e.
-Proof. cbn [nf1 nf_pat stable AllP OptP is_some snd]. repeat split; try reflexivity. Qed.
+  nf1 e /\ escape_free e /\ expand 1 0 (EBracket e) = Ok e.
+Proof. cbn [nf1 nf_pat escape_free AllP OptP is_some snd]. repeat split; try reflexivity. Qed.
 
 Example C09_example_splice :
   let p := ELet (PSingle "c") ty_unknown (EBracket (EVar "x"))
